@@ -137,6 +137,19 @@ pub fn index_order(repo: &Arc<ReadonlyRepo>, known: &[CommitId]) -> Vec<CommitId
     ids
 }
 
+/// The same through the public `Revset` trait (works for a `MutableRepo` too): a revset
+/// streams its commits by descending index position.
+pub fn index_order_dyn(repo: &dyn Repo, known: &[CommitId]) -> Vec<CommitId> {
+    use futures::TryStreamExt as _;
+    let revset = jj_lib::revset::ResolvedRevsetExpression::commits(known.to_vec())
+        .evaluate(repo)
+        .unwrap();
+    let mut ids: Vec<CommitId> = revset.stream().try_collect().block_on().unwrap();
+    ids.reverse();
+    assert_eq!(ids.len(), known.len());
+    ids
+}
+
 /// Graph by positions for the given ascending id order: (parents by position, id -> pos).
 pub fn graph_of(repo: &dyn Repo, order: &[CommitId]) -> (Vec<Vec<usize>>, HashMap<CommitId, usize>) {
     let pos: HashMap<CommitId, usize> =
